@@ -116,6 +116,7 @@ func buildCfg(cf *ConfigFile, h *HarnessDef, tier string, twin bool) (*RunCfg, e
 	}
 	raw := h.Quick
 	if tier == "thorough" {
+		cfg.CrossSolver = "cvc5"
 		raw = h.Thorough
 		if raw == nil {
 			raw = h.Quick
@@ -224,6 +225,8 @@ func mergeReports(rs []*Report) *Report {
 		if len(m.Samples) < 6 {
 			m.Samples = append(m.Samples, r.Samples...)
 		}
+		m.CrossChecked += r.CrossChecked
+		m.CrossUnknown += r.CrossUnknown
 		m.Queries += r.Queries
 		m.Unknowns += r.Unknowns
 		m.SolverErrors = append(m.SolverErrors, r.SolverErrors...)
@@ -288,6 +291,12 @@ func runShard(P *Program, cfg *RunCfg, shard int, replayTrace []Decision, concMo
 		solver.log = f
 	}
 	vm := &VM{prog: P.prog, tb: NewTermBank(), solver: solver, cfg: cfg, intMode: cfg.IntMode, funcsSeen: map[*ssa.Function]bool{}}
+	if cfg.CrossSolver != "" && replayTrace == nil {
+		if s2, err := NewSolver(cfg.CrossSolver, cfg.QueryMs); err == nil {
+			vm.solver2 = s2
+			defer s2.Close()
+		}
+	}
 	ex := NewExplorer(vm, cfg)
 	ex.shard = shard
 	if replayTrace != nil {
@@ -645,7 +654,7 @@ func writeEvidence(cf *ConfigFile, prop, tier string, seed int, outs []*harnessO
 			"discharged": r.Discharged, "queries": r.Queries, "solver_time_s": r.SolverTimeS, "wall_s": r.WallS, "complete": r.Complete,
 			"bounds": map[string]interface{}{"mode": r.Cfg.Mode, "preemption_bound": r.Cfg.Preempt, "loop_unwind": r.Cfg.Unwind, "max_steps_per_path": r.Cfg.MaxSteps,
 				"max_paths": r.Cfg.MaxPaths, "max_depth": r.Cfg.MaxDepth, "params": r.Cfg.Params, "int_mode": r.Cfg.IntMode, "race_detector": r.Cfg.Race, "ledger": r.Cfg.Ledger, "pool_any": r.Cfg.PoolAny},
-			"inconclusive": r.Inconclusive, "max_trace_len": r.MaxTraceLen,
+			"inconclusive": r.Inconclusive, "max_trace_len": r.MaxTraceLen, "assertion_queries_cross_checked_with_cvc5": r.CrossChecked, "cross_check_unknown": r.CrossUnknown,
 		}
 		var vl []string
 		for _, v := range r.Violations {
